@@ -151,6 +151,12 @@ impl<'a> GeneratorState<'a> {
             ExprType::Absolute(variable, eight_bits, off) => {
                 let v = self.compiler_state.get_variable(variable);
                 signed = v.signed;
+                // (room for the port offsets and the sizes that are added to it)
+                if !(-0x100000..=0x100000).contains(off) {
+                    return Err(self
+                        .compiler_state
+                        .syntax_error("Constant expression overflow", pos));
+                }
                 let offset = if v.memory == VariableMemory::Superchip {
                     match mnemonic {
                         STA | STX | STY => *off,
